@@ -3,7 +3,7 @@ C14 — obligations that tie the hand-written model `Model/Health.lean` to table
 (`Gen/Health.lean`, extractor harness/extract/health.py). A source change in any of these places makes one of these
 theorems fail to check.
 -/
-import PrimaiteModel.Model.HealthDyn
+import PrimaiteModel.Model.HealthObs
 import PrimaiteModel.Gen.Health
 namespace Primaite.Health
 
@@ -155,5 +155,54 @@ theorem C14_gen_fresh_items :
       showFsHName (d.freshFolder "F").actual = Gen.Health.itemHealthDefault ∧
       showFsHName (d.freshFolder "F").visible = Gen.Health.itemVisibleDefault) := by
   refine ⟨fun _ => rfl, rfl, rfl, rfl, rfl, fun _ => ⟨rfl, rfl, rfl, rfl⟩⟩
+
+
+/-! ### what the agent is shown for a folder (round 7): `FolderObservation.observe`, the `pre_timestep` path, the order of a game step -/
+
+/-- the state-dictionary entries the observer reads are the folder's actual / visible health, its refresh flag, and the LIVE folders
+by name -/
+theorem C14_gen_folder_observe :
+    Gen.Health.stateKeys =
+      [("FileSystemItemABC.describe_state", "health_status", "self.health_status.value"),
+       ("FileSystemItemABC.describe_state", "visible_status", "self.visible_health_status.value"),
+       ("Folder.describe_state", "scanned_this_step", "self._scanned_this_step"),
+       ("FileSystem.describe_state", "folders", "{folder.name: folder.describe_state() for folder in self.folders.values()}")] := by
+  decide
+
+/-- the MODEL's observer evaluated on the same 32 valuations, with probe values that tell the three sources apart (cached = CORRUPT,
+visible = GOOD, actual = COMPROMISED; the folder has identity 0, a cache read from "another folder" identity 1) -/
+def modelObserveTruth : List (List Bool × String × String × Bool × String) :=
+  let bits : List Bool := [false, true]
+  bits.flatMap fun absent => bits.flatMap fun rq => bits.flatMap fun scanned => bits.flatMap fun idNone => bits.map fun idSame =>
+    let o : FolderObs := { name := "f", requiresScan := rq, cached := .corrupt,
+                           cachedId := if idNone then none else if idSame then some 0 else some 1 }
+    let G : Folder := { name := "f", deleted := false, actual := .compromised, visible := .good, scanDur := 1, scanCd := 0,
+                        restoreDur := 1, restoreCd := 0, files := [], scanned := scanned }
+    let r : FsH × FolderObs := o.see (if absent then none else some (0, G))
+    let src : String := match r.1 with
+      | FsH.corrupt => "self.cached_obs['health_status']" | FsH.good => "folder_state['visible_status']"
+      | FsH.compromised => "folder_state['health_status']" | _ => "-"
+    if absent then ([absent, rq, scanned, idNone, idSame], "self.default_observation", "-", false, "-")
+    else ([absent, rq, scanned, idNone, idSame], "obs", src, decide (r.2.cached = r.1),
+          if r.2.cachedId = some 0 then "folder_state.get('uuid')" else "-")
+
+set_option maxRecDepth 16000 in
+/-- SEMANTIC tie of the observer: `FolderObservation.observe`, executed symbolically by the extractor for every valuation of its five
+Boolean inputs, does what `FolderObs.see` does — whatever the shape of the control flow in the source. -/
+theorem C14_gen_folder_observe_truth : Gen.Health.folderObserveTruth = modelObserveTruth := by decide
+
+/-- `pre_timestep` reaches every LIVE folder of every node unconditionally (whatever the node's power state) and no deleted folder
+(= `Node.pre`); a game step is `pre_timestep; requests; apply_timestep; observe` (= `Node.gameStep`, then `FolderObs.observe`) -/
+theorem C14_gen_pre_chain :
+    (∀ r ∈ [("PrimaiteGame.pre_timestep", "self.simulation.pre_timestep", "", ""),
+            ("Simulation.pre_timestep", "self.network.pre_timestep", "", ""),
+            ("Network.pre_timestep", "node.pre_timestep", "for node in self.nodes.values()", ""),
+            ("Node.pre_timestep", "self.file_system.pre_timestep", "", ""),
+            ("FileSystem.pre_timestep", "folder.pre_timestep", "for folder in self.folders.values()", "")],
+        r ∈ Gen.Health.preChain) ∧
+    (Gen.Health.preChain.filter (fun r => r.1 = "FileSystem.pre_timestep" && r.2.1 != "super().pre_timestep")).length = 1 ∧
+    Gen.Health.gameStepOrder = ["pre_timestep", "apply_agent_actions", "advance_timestep", "update_agents",
+      "advance_timestep -> self.simulation.apply_timestep", "pre_timestep -> self.simulation.pre_timestep"] := by
+  decide
 
 end Primaite.Health
